@@ -142,6 +142,7 @@ func (p *propC01) genSweep(x int) *Scenario {
 	if x >= p.nSweep {
 		return nil
 	}
+	x0 := x
 	pat := x % 5
 	x /= 5
 	order := x % 2
@@ -151,6 +152,13 @@ func (p *propC01) genSweep(x int) *Scenario {
 	tb := p.types[x%len(p.types)]
 	x /= len(p.types)
 	c := p.cases[x%len(p.cases)]
+	if baseOf(byte(tb)) == nil && len(p.types) == 256 {
+		// thorough tier: a type byte outside the 17 defined ones is rejected before
+		// size or data matter; keep 4 sizes and one pattern for those
+		if pat != 0 || !(size == 0 || size == 1 || size == 4 || size == 255) {
+			return nil
+		}
+	}
 	arch := "le"
 	if order == 1 {
 		arch = "be"
@@ -183,7 +191,7 @@ func (p *propC01) genSweep(x int) *Scenario {
 		{Def: &DefOp{Local: 1, Arch: arch, Global: c.global, Fields: [][3]int{{c.num, size, tb}}}},
 		{Data: &DataOp{Local: 1, Bytes: hexs(data)}},
 	}
-	h := uint64(x)*2654435761 ^ uint64(size)*40503 ^ uint64(tb)*97 ^ uint64(pat)
+	h := uint64(x0/10)*2654435761 ^ uint64(size)*40503 ^ uint64(tb)*97 ^ uint64(pat)
 	plan := planFull()
 	switch h % 16 {
 	case 0:
@@ -191,7 +199,7 @@ func (p *propC01) genSweep(x int) *Scenario {
 	case 1:
 		plan = planK(3)
 	}
-	sc := &Scenario{V: 1, Property: "C01", Engine: "rx", Family: "sweep", Seed: p.seed, Index: p.nMut + x,
+	sc := &Scenario{V: 1, Property: "C01", Engine: "rx", Family: "sweep", Seed: p.seed, Index: p.nMut + x0,
 		Media: []Medium{{ID: "m0", Records: &RecStream{Header: HeaderSpec{Size: 12, Proto: 0x10, Profile: 2115}, Ops: ops}}},
 		Tasks: []Task{
 			{ID: 0, Call: "Decode", In: "m0", Read: plan},
